@@ -1,5 +1,5 @@
 (* C08 — Every tree the factories accept can be compiled and executed. *)
-From DR Require Import Model.IterExec Model.Reach Proofs.IterExecLaws Proofs.BuildLaws Proofs.SqlStruct.
+From DR Require Import Model.IterExec Model.Reach Proofs.IterExecLaws Proofs.BuildLaws Proofs.SqlStruct Proofs.SqlRules Proofs.SqlBuild.
 
 (* iteration engine: a program accepted by the factories executes without any error (no missing
    column lookup, no unsupported node): execute returns rows — in fact exactly the specification's *)
@@ -11,3 +11,12 @@ Proof. intros env p t H1 H2 H3. eexists. eapply iter_execute_exact; eauto. Qed.
    compiler's entry point takes); compilation itself is validated against SQLite per run *)
 Theorem C08_sql_factories_return_compilable_shape : forall t c, conform t = Ok c -> is_select c = true.
 Proof. exact conform_is_select. Qed.
+
+(* ... and for whole single-engine SQL programs the relation handed to the compiler is a conformed relation all of
+   whose SELECT markers are coherent with the operation nodes they manage (good_all), denoting the program *)
+Theorem C08_sql_program_is_conformed : forall env e0 p t, ekind_of e0 = KSql ->
+  sqlprog_ok env e0 p -> build_multi p = Ok t -> good_all env t /\ is_select t = true.
+Proof.
+  intros env e0 p t Hk H1 H2. destruct (build_sql_built env e0 Hk p t H1 H2) as (G & _).
+  split; auto. apply good_all_sel in G. destruct t; try (destruct G; fail). reflexivity.
+Qed.
